@@ -1364,3 +1364,45 @@ def reducer_expr(repo: Repo, fn: Func, F: ast.AST) -> ast.AST:
             if e is not None and _inl._size(e) <= 200 and len(list(cand.node.body)) <= 3:
                 return e
     return ast.Call(func=F, args=[ACC, X], keywords=[])
+
+
+# ------------------------------------------------------------------------------------------ effective acquisition
+def rule_acquire_effective(ctx: Ctx, clause: str, rule="TS.acquire-effective"):
+    """`Station.checkout_charger(c)` / `enqueue_for_charger(c)` go through station_state_update, which hands back the station
+    UNCHANGED (no error) when the station has no plug type `c`. An `enter` that takes a plug or a queue slot therefore holds
+    one only if it has established that the type exists at THAT station (get_charger_instance succeeded, or
+    has_available_charger / get_available_chargers > 0) on the path that acquires. Checking the environment-wide charger table
+    instead lets a 'wrong plug' instruction succeed: the previous activity's resources are released, nothing is taken."""
+    n = 0
+    for sc in states.state_classes(ctx.repo):
+        ren = sc.rename(sc.enter)
+        for m in sc.success("enter"):
+            for u in m.uses:
+                if u.kind not in ("plug", "queue") or u.direction != "A":
+                    continue
+                n += 1
+                tgt, arg = u.target, u.args
+                inst = f"{tgt}.get_charger_instance({arg})"
+                ok = False
+                for a, pol in m.path.facts():
+                    d = states.ndump(a, ren)
+                    if flow.is_syn(a, "$isnone"):
+                        inner = states.ndump(a.args[0], ren)
+                        if (inner == f"{inst}[0]" and pol is True) or (inner == f"{inst}[1]" and pol is False):
+                            ok = True
+                    elif (d == f"{inst}[0]" and pol is False) or (d == f"{inst}[1]" and pol is True):
+                        ok = True
+                    elif d == f"{tgt}.has_available_charger({arg})" and pol is True:
+                        ok = True
+                if not ok:
+                    facts_n = [(states.norm(a, ren), pol) for a, pol in m.path.facts()]
+                    from . import gd as _gd
+                    ok = 0 not in _gd.allowed_values(facts_n, f"{tgt}.get_available_chargers({arg})")
+                ctx.check(ok, clause, rule, f"{sc.name}.enter line {m.path.lineno}: the {u.kind} of type {arg} is taken only after establishing that {tgt} has that type", sc.enter, u.event.raw,
+                          why_ok="get_charger_instance / availability of that type at that station tested on the path",
+                          why_bad=f"path [{m.path.cond_text()[-220:]}] calls {u.event.name}({arg}) without having established that the station has a `{arg}` plug: for an unknown type the "
+                                  f"station comes back unchanged, enter succeeds holding nothing",
+                          construct=f"{sc.name}.enter:{u.kind}-type-unchecked")
+    if n < 3:
+        ctx.soft_fail(f"{rule}: only {n} plug/queue acquisitions found")
+    return n
